@@ -433,7 +433,9 @@ class CustomMode:
 
         # Read the file without forcing its data type
         all_data: "pd.DataFrame" = load_table(custom_file, dtype=None)
-        filtered_data: "pd.DataFrame" = all_data.loc[:, custom_columns]
+        filtered_data: "pd.DataFrame" = (
+            all_data if custom_columns is None else all_data.loc[:, custom_columns]
+        )
 
         # Sanity check
         num_columns = len(filtered_data.columns)
